@@ -418,3 +418,27 @@ PROPS["C20"] = dict(
     assumptions=["exactError*() is only called after at least one pass of the iteration loop (documented use)",
                  "an out-of-range enum value passed through a cast may either be rejected or run (no UB); rejection is demanded at the command line"],
 )
+
+PROPS["C11"] = dict(
+    harness="c11_races", flavour="rel", extra_targets={"tsan": ["c11_tsan_driver"]}, parallel=4,
+    quick=dict(workers=4, cases=160, min_nontrivial=80),
+    thorough=dict(workers=4, cases=6000, min_nontrivial=2000, budget_s=3400),
+    rule="(operator, shape class, thread count): operators ResidualGive/Take, SmootherGive/Take, ExtrapolatedSmootherGive/"
+         "Take (two sweeps, incl. construction = matrix assembly), DirectSolverGive/TakeCustomLU (assembly + solve), "
+         "LevelCache (both constructors), all transfers + FMG interpolation (half of the grids >10000 nodes, the parallel "
+         "paths), vector kernels and Vector copy (n around the 10000 threshold), whole setup()+solve() with "
+         "threadReductionFactor 1/0.5/0.3; shapes: number of circles 0..14 (2/3..14 for the smoothers) x radial length "
+         "0/2..7 x ntheta in {4,6,8,10,12,14,16,20,24,28,32,40} (multiples of 4 for the smoothers), i.e. all residues of the "
+         "circle count mod 2,3,4 and of ntheta mod 3,4 incl. minimal sizes; threads 2,3,4,5,7,8,16,33 (oversubscribed, "
+         "more threads than lines). Each case runs in a child built with -fsanitize=thread under the Archer OMPT tool "
+         "(banner checked), operator executed twice in parallel and once serially. Non-trivial: threads>=2. Distinct: "
+         "(operator, circles mod 12, nr, ntheta, BC, threads).",
+    technique="property-based testing (rapidcheck) over schedule classes (shape x thread count) with a happens-before race detector (ThreadSanitizer + Archer OMPT) as the oracle, plus parallel-vs-serial differential",
+    level_text="The code uses only statically scheduled omp-for loops and barriers, so which thread touches which line and "
+               "what synchronises them is a function of (operator, grid shape class, thread count); the harness generates "
+               "those and a happens-before detector decides each class without depending on timing. Exploration over "
+               "classes; TSan's bounded shadow history makes a clean run strong evidence, not proof.",
+    level_note="Trusted: ThreadSanitizer + Archer (OpenMP happens-before; verified to report a seeded nowait race and to stay "
+               "silent on the unchanged tree); the claim about static scheduling is re-checked by tools/check_omp_constructs.py.",
+    assumptions=["no schedule(dynamic/guided), tasks, atomics or locks in the compiled, called code paths (checked mechanically)"],
+)
